@@ -27,6 +27,12 @@ package server
 //@   requires r != nil
 //@ func mapEvent
 //@   props C11
+//@ pred queriesWF(qs []*v1alpha1.LabelQuery) := forall i int :: 0 <= i && i < len(qs) ==> qs[i] != nil && termsWF(qs[i].Terms)
+//@
+//@ func (*State).List
+//@   props C11
+//@   requires server != nil && server.state != nil && req != nil && srv != nil
+//@   requires [decoded] req.Options != nil ==> queriesWF(req.Options.LabelQuery)
 //@ func (*State).Get
 //@   props C11
 //@   requires server != nil && server.state != nil && req != nil
@@ -45,3 +51,6 @@ package server
 //@ func (*State).TeardownAndDestroy
 //@   props C11
 //@   requires server != nil && server.state != nil && req != nil
+
+// Generated protobuf accessors are nil-safe one-liners: they are inlined.
+//@ inline_matching ^api/v1alpha1\.\(\*\w+\)\.Get\w+$
